@@ -28,7 +28,7 @@ EXPLANATION = (
 TRUSTED = [
     "rustc nightly front end + MIR construction (-Zmir-opt-level=0)",
     "exmex-facts exporter faithfulness",
-    "num-traits: Float::<m> for f32/f64 forwards to the inherent primitive method (checked in thorough tier R19.3)",
+    "std primitives f32::m / f64::m and the built-in float operators compute the function of their name",
     "spec/float_ops.json written from the documentation",
 ]
 
@@ -90,6 +90,7 @@ def run(ctx):
     chk.rule("R19.1", "each table entry's function body (after crate-local forwarding) is exactly one resolved call "
                       "to the documented primitive with parameters in documented order; no duplicate names")
     chk.rule("R19.2", "each constant is NumCast::from(<f64::consts item>) whose bits equal the IEEE value of its documented name")
+    chk.rule("R19.3", "for T in {f32, f64}: <T as num::Float>::m is exactly one call of the inherent primitive T::m with the arguments in order")
     chk.rule("R19.4", "FloatOpsFactory<T> is the default operator factory of FlatEx/DeepEx and the one used by parse/eval_str")
     make = fb.one_body(lambda b: b["kind"] == "AssocFn" and b.get("name") == "make"
                        and "FloatOpsFactory" in (b.get("impl_self_ty") or "")
@@ -249,3 +250,32 @@ def run(ctx):
             chk.ok("R19.4", "entry:%s uses FloatOpsFactory<T>" % fname, "", loc(bs[0]["span"]))
         else:
             chk.violation("R19.4", "entry:%s" % fname, "%s does not parse with FlatEx<T, FloatOpsFactory<T>, _>" % fname, loc(bs[0]["span"]))
+
+    # ---- R19.3 forwarding of num::Float to the primitives
+    from analysis.interp import Interp as _I, Policy as _P
+    used = {v["method"] for v in spec["binary"].values() if v["trait"] == "Float"} | set(spec["unary"].values())
+    impls = {(x["ty"], x["method"]): x for x in fb.raw.get("float_impls", [])}
+    n3 = 0
+    for ty in ("f32", "f64"):
+        for m in sorted(used):
+            x = impls.get((ty, m))
+            if x is None:
+                chk.violation("R19.3", "forward:%s:%s" % (ty, m), "no MIR for <%s as num::Float>::%s: forwarding cannot be confirmed" % (ty, m))
+                continue
+            body = {"path": x["impl_path"], "blocks": x["blocks"], "arg_count": x["arg_count"], "kind": "AssocFn",
+                    "span": {"file": "num-traits", "line": 0, "col": 0}, "locals": []}
+            ps = _I(fb, _P()).run(body, [Sym("p%d" % i) for i in range(x["arg_count"])])
+            n3 += 1
+            ok = False
+            if len(ps) == 1 and ps[0].status == "return" and isinstance(ps[0].result, App):
+                r = ps[0].result
+                want = r"^(std|core)::%s::<impl %s>::%s$" % (ty, ty, m)
+                import re as _re
+                if _re.match(want, r.fn) and [a.name if isinstance(a, Sym) else None for a in r.args] == ["p%d" % i for i in range(x["arg_count"])]:
+                    ok = True
+            if ok:
+                chk.ok("R19.3", "<%s as Float>::%s forwards to %s::%s" % (ty, m, ty, m), show(ps[0].result))
+            else:
+                chk.violation("R19.3", "forward:%s:%s" % (ty, m), "<%s as num::Float>::%s is not a plain forward to the primitive: %s" % (
+                    ty, m, show(ps[0].result)[:120] if ps and ps[0].result is not None else [p.status for p in ps]))
+    chk.floor("R19.3", "forwarding impls checked", n3, 58)
